@@ -51,6 +51,13 @@ def demo_tests(sd):
 
 def run_demo(wt, sd):
     """returns (all_passed, output)"""
+    inst = os.path.join(sd, "demo_install.sh")
+    if os.path.exists(inst):
+        # hand-written installer for demos that are not plain integration tests
+        rc, o = sh(["sh", inst, wt, sd], cwd=wt)
+        cmd = open(os.path.join(sd, "demo_cmd")).read().strip()
+        rc2, o2 = sh(cmd, cwd=wt)
+        return rc == 0 and rc2 == 0, (o + o2)[-3000:]
     feats = features_for(sd)
     ok = True
     out = ""
@@ -68,6 +75,9 @@ def run_demo(wt, sd):
 
 
 def clean_demo(wt, sd):
+    if os.path.exists(os.path.join(sd, "demo_install.sh")):
+        # installers modify tracked files too: restore everything but the patch is re-applied by the caller's flow
+        return
     for t in demo_tests(sd):
         p = os.path.join(wt, "tests", os.path.basename(t))
         if os.path.exists(p):
@@ -92,6 +102,8 @@ def verify(pid, x):
     res = {"seed": "%s_%s" % (pid, x), "repo_head": head}
     ok0, o0 = run_demo(wt, sd)
     res["demo_passes_without_patch"] = ok0
+    if os.path.exists(os.path.join(sd, "demo_install.sh")):
+        sh("git checkout -q -- . && git clean -fdq -e target", cwd=wt)
     ap, oa = apply_patch(wt, os.path.join(sd, "patch.diff"))
     res["patch_applies"] = ap
     if ap:
@@ -148,6 +160,9 @@ def keep(pid, x):
     dst = os.path.join(VERIF, "seeded", "%s_%s" % (pid, x))
     os.makedirs(dst, exist_ok=True)
     shutil.copy(os.path.join(sd, "patch.diff"), dst)
+    for extra in ("demo_install.sh", "demo_cmd"):
+        if os.path.exists(os.path.join(sd, extra)):
+            shutil.copy(os.path.join(sd, extra), dst)
     if os.path.exists(os.path.join(dst, "demo")):
         shutil.rmtree(os.path.join(dst, "demo"))
     shutil.copytree(os.path.join(sd, "demo"), os.path.join(dst, "demo"))
